@@ -286,3 +286,138 @@ contract(SQ, "Sequence._phase_shift", props=("C07",),
          loops={0: LoopSpec(ps_loop_inv, modifies=(BR_TIMES + ".len", BR_TIMES + ".at", BR_PHASES + ".len", BR_PHASES + ".at"))},
          exc_safe=True,
          )
+
+
+# --------------------------------------------------------------------------
+# Sequence._add  (C01, C03, C07)
+# --------------------------------------------------------------------------
+def seq_wf(c, ch=None):
+    """what Sequence-level methods assume about the sequence (established by __init__/declare_channel, preserved by every method)"""
+    h, seq = c.old, T(c.self)
+    sch = SCH(c)
+    key = z3.Const("key!sw", PStr)
+    k = z3.Int("k!sw")
+    cs_k = sch_get(h, sch, key)
+    out = [("built", building(h, seq)),
+           ("schedule-wf", SC.SCHED_WF(h, sch)),
+           ("schedule-allocated", z3.Select(h.get("$alloc"), sch)),
+           ("bases-of-declared-channels-are-tracked", z3.ForAll([key], z3.Implies(sch_has(h, sch, key), br_has(h, seq, fget("Channel", "basis", cs_chan(cs_k)))), patterns=[sch_get(h, sch, key)])),
+           ("targets-are-register-qubits", z3.ForAll([key, k], z3.Implies(z3.And(sch_has(h, sch, key), 0 <= k, k < cs_len(h, cs_k)),
+                                                                           subset(s_targets(cs_at(h, cs_k, k)), qids(h, seq))), patterns=[cs_at(h, cs_k, k)])),
+           ("dmm-schedules", z3.ForAll([key], z3.Implies(z3.And(sch_has(h, sch, key), is_dmm(cs_chan(cs_k))),
+                                                         z3.And(is_dmm_sched(cs_k), valid_map(dmap_of(h, cs_k)), SC_SUM(dmap_of(h, cs_k)) >= 0)), patterns=[sch_get(h, sch, key)])),
+           ("targets-nonempty", z3.ForAll([key, k], z3.Implies(z3.And(sch_has(h, sch, key), 0 <= k, k < cs_len(h, cs_k)),
+                                                              nonempty(s_targets(cs_at(h, cs_k, k)))), patterns=[cs_at(h, cs_k, k)])),
+           ("slm-dmm-declared", z3.Or(h.read("Sequence._slm_mask_dmm?", seq), z3.Not(h.read("Sequence._in_ising_value", seq)),
+                                      sch_has(h, sch, h.read("Sequence._slm_mask_dmm", seq)))),
+           ]
+    out += SC.all_channels_requires_h(h, sch, ("len>=0", "kinds", "monotone", "boundaries-nonneg", "first-is-initial-target") + SC.LRT_HYPS)
+    return out + BRINV(h, seq)
+
+
+def nonempty(a):
+    q = z3.Const("q!ne", Qid)
+    return z3.Exists([q], z3.Select(a, q))
+
+
+def subset(a, b):
+    q = z3.Const("q!sub", Qid)
+    return z3.ForAll([q], z3.Implies(z3.Select(a, q), z3.Select(b, q)))
+
+
+def add_requires(c):
+    h, seq = c.old, T(c.self)
+    cs = CS(c)
+    dn = h.read("Sequence._slm_mask_dmm?", seq)
+    return seq_wf(c) + [
+        ("declared", sch_has(h, SCH(c), T(c.channel))),
+        ("valid-pulse", valid_pulse(T(c.pulse))),
+        ("no-pending-slm-mask-dmm", z3.Or(dn, z3.Not(h.read("Sequence._in_ising_value", seq)),
+                                          z3.Not(h.read("_DMMSchedule._waiting_for_first_pulse", sch_get(h, SCH(c), h.read("Sequence._slm_mask_dmm", seq)))))),
+        ("drift-params-only-in-eom", z3.BoolVal(True)),
+    ] + SC.INV(h, cs) + SC.EOMWF(h, cs) + [("within-max-sequence-duration", SC.MAXD(h, SCH(c), cs))]
+
+
+def add_ensures(c):
+    h0, h1, seq = c.old, c.new, T(c.self)
+    sch = SCH(c)
+    cs = CS(c)
+    ch = cs_chan(cs)
+    basis = fget("Channel", "basis", ch)
+    n0, n1 = cs_len(h0, cs), cs_len(h1, cs)
+    last = cs_at(h0, cs, n0 - 1)
+    new = cs_at(h1, cs, n1 - 1)
+    tg = s_targets(last)
+    p = T(c.pulse)
+    sp = s_pulse(new)
+    q = z3.Const("q!ae", Qid)
+    ref0 = lambda qq: qref(h0, seq, basis, qq)
+    tr0 = lambda qq: q_phase(h0, ref0(qq))
+    drift_none = c.phase_drift_params.none
+    return [
+        ("appends-a-pulse-slot-on-the-same-targets", z3.And(n1 >= n0 + 1, n1 <= n0 + 2, s_kind(new) == PULSE, s_targets(new) == tg)),
+        ("scheduled-duration-is-validated", z3.And(p_duration(sp) >= p_duration(p), p_duration(sp) < p_duration(p) + clock(ch), p_duration(sp) >= min_dur(ch))),
+        ("accepted-unchanged-if-clock-multiple", z3.Implies(z3.And(drift_none, p_duration(sp) == p_duration(p)), z3.And(P_AMP(sp) == P_AMP(p), P_DET(sp) == P_DET(p)))),
+        ("within-limits-if-unchanged", z3.Implies(z3.And(drift_none, p_duration(sp) == p_duration(p), z3.Not(is_dmm(ch))), LIMITS(sp, ch))),
+        ("phase-is-programmed-plus-reference", z3.Implies(z3.And(drift_none, z3.Not(is_dmm(ch))),
+                                                         z3.ForAll([q], z3.Implies(z3.Select(tg, q), p_phase(sp) == fmt(p_phase(p) + z3.If(last_phase(h0, tr0(q)) == 0, 0, last_phase(h0, tr0(q))))), patterns=[ref0(q)]))),
+        ("starts-after-latest-phase-shift-of-targets", z3.ForAll([q], z3.Implies(z3.Select(tg, q), s_ti(new) >= last_time(h0, tr0(q))), patterns=[ref0(q)])),
+        ("targets-marked-used", z3.ForAll([q], z3.Implies(z3.Select(tg, q), q_last(h1, ref0(q)) >= s_tf(new)), patterns=[ref0(q)])),
+        ("post-phase-shift-applied", z3.Implies(drift_none, z3.ForAll([q], z3.Implies(z3.Select(tg, q),
+                                                z3.If(P_PPS(sp) != 0, last_phase(h1, tr0(q)) == fmt(last_phase(h0, tr0(q)) + P_PPS(sp)),
+                                                      last_phase(h1, tr0(q)) == last_phase(h0, tr0(q)))), patterns=[ref0(q)]))),
+        ("within-max-sequence-duration", SC.MAXD(h1, sch, cs)),
+    ] + SC.prefix(c_with(c, sch), cs) + [(f"INV.{nm}", cl) for nm, cl in SC.INV(h1, cs)] + [(f"BRINV.{nm}", cl) for nm, cl in BRINV(h1, seq)]
+
+
+class _C:
+    pass
+
+
+def c_with(c, sch):
+    return c
+
+
+def add_touched_refs(c):
+    h0, seq = c.old, T(c.self)
+    cs = CS(c)
+    basis = fget("Channel", "basis", cs_chan(cs))
+    tg = s_targets(cs_at(h0, cs, cs_len(h0, cs) - 1))
+    q = z3.Const("q!tr", Qid)
+    return lambda r: z3.Exists([q], z3.And(z3.Select(tg, q), r == qref(h0, seq, basis, q)))
+
+
+def add_touched_trackers(c):
+    h0, seq = c.old, T(c.self)
+    cs = CS(c)
+    basis = fget("Channel", "basis", cs_chan(cs))
+    tg = s_targets(cs_at(h0, cs, cs_len(h0, cs) - 1))
+    q = z3.Const("q!tt", Qid)
+    return lambda r: z3.Exists([q], z3.And(z3.Select(tg, q), r == q_phase(h0, qref(h0, seq, basis, q))))
+
+
+def add_loop_inv(c):
+    h0, h1, seq = c.x["pre"].heap, c.new, T(c.a["self"])
+    idx = T(c.st.env["__qidx__"])
+    basis = T(c.st.env["basis"])
+    last = T(c.st.env["last"])
+    tf = s_tf(T(c.st.env["new_pulse_slot"]))
+    tg = s_targets(last)
+    J = c.j
+    ref = lambda qq: qref(h0, seq, basis, qq)
+    return [
+        ("visited-marked", Q([Qid], lambda q: (z3.And(z3.Select(tg, q), z3.Select(idx, q) < J), z3.And(q_last(h1, ref(q)) >= tf, q_last(h1, ref(q)) >= q_last(h0, ref(q)))), pats=lambda q: [ref(q)])),
+        ("others-untouched", Q([Ref], lambda r: (z3.Not((lambda q: z3.Exists([q], z3.And(z3.Select(tg, q), z3.Select(idx, q) < J, r == ref(q))))(z3.Const("q!li", Qid))),
+                                                 q_last(h1, r) == q_last(h0, r)), pats=lambda r: [q_last(h1, r)])),
+    ]
+
+
+contract(SQ, "Sequence._add", props=("C01", "C03", "C07"),
+         params={"self": ("ref", "Sequence"), "pulse": ("ref", "Pulse"), "channel": "str", "protocol": "str",
+                 "phase_drift_params": ("opt", ("ref", "_PhaseDriftParams"))},
+         requires=add_requires,
+         ensures=add_ensures,
+         raises={"ValueError": ("only-if", lambda c: z3.BoolVal(True)), "RuntimeError": ("only-if", lambda c: z3.BoolVal(True)), "TypeError": ("only-if", lambda c: z3.BoolVal(True))},
+         modifies={SC.SLOTS: lambda c: [CS(c)], "_QubitRef.last_used": add_touched_refs, BR_TIMES: add_touched_trackers, BR_PHASES: add_touched_trackers},
+         loops={0: LoopSpec(add_loop_inv, modifies=("_QubitRef.last_used",))},
+         )
